@@ -93,6 +93,7 @@ def settle (fuel : Nat) (d : D) (cyc : Array String) : D × Array String :=
   match fuel with
   | 0 => (d, cyc.push "fuel-exhausted")
   | fuel + 1 =>
+    let d := if fuel % 64 == 0 then d.normalise else d
     let S := d.sys
     let pick := (List.range d.n).find? fun r => allowed d r && (rstep S r d.s).isSome
     match pick with
@@ -138,7 +139,7 @@ def status (d : D) (ret : String) (cyc : Array String) : D × String :=
    s!"m {ret} | {joinWith " " perRes} | sh={sh} | cyc={cycS} | snap={snapS}")
 
 def finishOp (d : D) (ret : String) : D × Option String :=
-  let (d1, cyc) := settle 100000 d #[]
+  let (d1, cyc) := settle 20000 d #[]
   let (d2, line) := status d1.normalise ret cyc
   (d2, some line)
 
@@ -261,6 +262,7 @@ def step (d : D) (line : String) : D × Option String :=
     match r.toNat?, v.toInt? with
     | some r, some v => if r ≥ d.n then (d, some "bad-op") else finishOp { d with inp := d.inp.setIfInBounds r v } "-"
     | _, _ => (d, some "bad-op")
+  | ["abort"] => (d, none)   -- the harness gave up on this case after a hang (already reported)
   | ["join"] =>
     -- end of the script (every thread has been sent `stop` by ordinary `stop r` operations):
     -- remove every obstacle of the script and let everything run to the end
